@@ -63,8 +63,14 @@ var c05 = Register("C05", "C05.parse", func(a c05Args) *Violation {
 		st.NT(hashString(s), func() any { return map[string]any{"invalid": abbr(s)} })
 		return nil
 	}
-	// valid literal
-	for _, m := range ref.Modes {
+	// valid literal: under every value of DefaultRoundingMode; a literal of more than 50 000 characters costs
+	// milliseconds per entry point and mode, so it is checked under nearest-even and one other mode picked by the
+	// case (all modes still occur, spread over the cases)
+	modes := ref.Modes
+	if len(s) > 50000 {
+		modes = []d128.RoundingMode{d128.ToNearestEven, ref.Modes[1+hashString(s[:64])%5]}
+	}
+	for _, m := range modes {
 		var d d128.Decimal
 		var err error
 		u := prior(hashString(s) + uint64(m))
